@@ -28,7 +28,7 @@ def run(tier, seed, replay=None):
     nrng = np.random.RandomState(seed % (2 ** 31))
     tol = C.fr(state.knot_tolerance)
     reps = 30 if tier == 'quick' else 400
-    dist = {'op': {}, 'boundary': {}, 'basis_kind': {}, 'dim': {}, 'errors': {}}
+    dist = {'spelling': {}, 'op': {}, 'boundary': {}, 'basis_kind': {}, 'dim': {}, 'errors': {}}
     evals = 0
     nontriv = set()
     samples = []
@@ -445,20 +445,65 @@ def run(tier, seed, replay=None):
                 fail('fit', args, 'a cubic polynomial was not reproduced on a single knot span')
         except Exception as e:  # noqa
             fail('fit', args, 'raised %s' % type(e).__name__)
-    pts = [[0, 0], [1, 0], [1, 1], [3, 2]]
-    try:
-        fp = cf.fit_points(pts, rtol=1e-2)
-        count('fit_points')
-        lin = cf.polygon(pts)
-        tg = np.linspace(lin.start(0), lin.end(0), 200)
-        err = np.sqrt(np.mean(np.sum((np.asarray(fp.evaluate(tg)) - np.asarray(lin.evaluate(tg))) ** 2, axis=1)) * (lin.end(0) - lin.start(0)))
-        if err / fp.length() > 1e-2 * 1.2:
-            fail('fit_points', dict(pts=pts), 'relative L2 error %g exceeds rtol' % (err / fp.length()))
-    except Exception as e:  # noqa
-        fail('fit_points', dict(pts=pts), 'raised %s' % type(e).__name__)
+    # fit_points: the target is the polygon through the points (chord-length or given parameters); every tolerance the
+    # caller can state is checked, tighter and looser than the defaults, positionally and by keyword, with an
+    # independent quadrature whose break points are the union of the curve's knots and the polygon's corners
+    def l2_and_max(crv, lin):
+        brk = sorted(set([float(x) for x in crv.knots(0)]) | set([float(x) for x in lin.knots(0)]))
+        gx, gw = np.polynomial.legendre.leggauss(10)
+        e2, mx = 0.0, 0.0
+        for k0, k1 in zip(brk[:-1], brk[1:]):
+            if k1 - k0 < 1e-14:
+                continue
+            tg = (gx + 1) / 2 * (k1 - k0) + k0
+            d2 = np.sum((np.asarray(crv.evaluate(tg)) - np.asarray(lin.evaluate(tg))) ** 2, axis=1)
+            e2 += float(np.dot(d2, gw / 2 * (k1 - k0)))
+            ts = np.linspace(k0, k1, 9)
+            mx = max(mx, float(np.sqrt(np.max(np.sum((np.asarray(crv.evaluate(ts)) - np.asarray(lin.evaluate(ts))) ** 2, axis=1)))))
+        return math.sqrt(e2), mx
+
+    for it in range(max(15, reps // 3)):
+        npt = rng.randint(3, 7)
+        dimp = rng.choice([2, 2, 3])
+        pts, cur = [], [0.0] * dimp
+        for _ in range(npt):
+            cur = [c + rng.choice([-2, -1, 1, 2, 3]) * (1.0 if j else abs(rng.choice([1, 2]))) for j, c in enumerate(cur)]
+            pts.append(list(cur))
+        given_t = rng.random() < 0.5
+        tpar = None
+        if given_t:
+            tpar, acc = [], 0.0
+            for _ in range(npt):
+                tpar.append(acc)
+                acc += rng.choice([0.5, 1.0, 1.5, 2.0])
+        mode = 3 if it % 5 == 4 else 0
+        rtol = [1e-5, 3e-6, 1e-2, 1e-3][it % 4] if mode != 3 else 1e-9
+        atol = 0.0 if mode != 3 else rng.choice([0.05, 0.01])
+        spelling = 'kw' if mode == 3 else ['kw', 'pos', 'kw-noatol'][it % 3]
+        args = dict(pts=pts, t=tpar, rtol=rtol, atol=atol, spelling=spelling)
+        try:
+            tt = tpar if given_t else []
+            if spelling == 'pos':
+                fp = cf.fit_points(pts, tt, rtol, atol)
+            elif spelling == 'kw-noatol':
+                fp = cf.fit_points(pts, t=tt, rtol=rtol) if given_t else cf.fit_points(pts, rtol=rtol)
+            else:
+                fp = cf.fit_points(pts, t=tt, rtol=rtol, atol=atol)
+            count('fit_points', spelling=spelling)
+            lin = cf.polygon(pts, t=tpar) if given_t else cf.polygon(pts)
+            el2, emax = l2_and_max(fp, lin)
+            rel = el2 / fp.length()
+            if abs(fp.start(0) - lin.start(0)) > 1e-12 or abs(fp.end(0) - lin.end(0)) > 1e-12:
+                fail('fit_points', args, 'the fitted curve is not parametrised over the polygon domain')
+            elif mode != 3 and rel > rtol * 1.25:
+                fail('fit_points', args, 'relative L2 error %g exceeds the requested rtol %g' % (rel, rtol))
+            elif mode == 3 and rel > rtol * 1.25 and emax > atol * 1.25:
+                fail('fit_points', args, 'neither stated tolerance is met: relative L2 error %g (rtol %g), max error %g (atol %g)' % (rel, rtol, emax, atol))
+        except Exception as e:  # noqa
+            fail('fit_points', args, 'raised %s' % type(e).__name__)
 
     # ---------------------------------------------------------------- L1: control points vs the extracted model
-    corr_bad = None
+    corr_bad = C.Corr()
     lines, meta = [], []
 
     def btok(b):
@@ -487,13 +532,13 @@ def run(tier, seed, replay=None):
         st = tk.word()
         if st != 'Ok':
             why = tk.word()
-            if corr_bad is None and why != 'Singular':
-                corr_bad = {'what': 'L1: model raises %s for %s, implementation succeeds' % (why, kind), 'op': kind}
+            if corr_bad.open() and why != 'Singular':
+                corr_bad += {'what': 'L1: model raises %s for %s, implementation succeeds' % (why, kind), 'op': kind}
             continue
         if kind == 'cubic':
             mk = [float(x) for x in tk.qlist()]
-            if (len(mk) != len(d['knots']) or any(abs(a - b) > 1e-12 * max(1, abs(b)) for a, b in zip(mk, d['knots']))) and corr_bad is None:
-                corr_bad = {'what': 'L1: cubic_curve(%s) knot vector differs from the model' % d['boundary'], 'op': 'cubic', 'model': mk, 'implementation': d['knots']}
+            if (len(mk) != len(d['knots']) or any(abs(a - b) > 1e-12 * max(1, abs(b)) for a, b in zip(mk, d['knots']))) and corr_bad.open():
+                corr_bad += {'what': 'L1: cubic_curve(%s) knot vector differs from the model' % d['boundary'], 'op': 'cubic', 'model': mk, 'implementation': d['knots']}
         n = tk.int()
         got = np.array([[float(x) for x in tk.qlist()] for _ in range(n)])
         want = d['got']
@@ -503,11 +548,11 @@ def run(tier, seed, replay=None):
             # model net is C-order (u slow); implementation array is (u, v, comp)
             want = np.asarray(d['got']).reshape(-1, np.asarray(d['got']).shape[-1])
         want = want.reshape(got.shape) if want.size == got.size else want
-        if not close(got, want, np.abs(want).max(initial=0), 1e-6) and corr_bad is None:
-            corr_bad = {'what': 'L1: control points of %s differ from the model (max %g)' % (kind, np.abs(got - want).max() if got.shape == want.shape else -1), 'op': kind,
+        if not close(got, want, np.abs(want).max(initial=0), 1e-6) and corr_bad.open():
+            corr_bad += {'what': 'L1: control points of %s differ from the model (max %g)' % (kind, np.abs(got - want).max() if got.shape == want.shape else -1), 'op': kind,
                         'args': {k: (v.tolist() if hasattr(v, 'tolist') else (bjson(v) if isinstance(v, dict) and 'knots' in v else str(v))) for k, v in d.items() if k not in ('bases',)}}
     dist['op']['L1 comparisons'] = nl1
-    rc = V.finish(l0, corr_bad if not V.fail else None)
+    rc = V.finish(l0, corr_bad)
     C.write_evidence(PID, tier, seed, l0, {
         'evaluations': evals, 'distinct_nontrivial': len(nontriv),
         'rule': 'curve interpolate (Greville or user parameters, open/non-open/periodic bases, 1-3 dims) incl. projection and least squares; cubic_curve for all six boundary types with '
